@@ -114,7 +114,7 @@ pub fn run(prop: Prop, s: &Scn) -> RunOut {
                 steps: r.steps as u64,
                 executions: r.executions as u64,
                 counters: c,
-                states: Vec::new(),
+                states: r.schedules,
                 transitions: Vec::new(),
             }
         }
